@@ -103,6 +103,70 @@ Theorem C03_div_by_zero : forall B p m s1 e1 e2, 1 <= p -> repr_div B p m s1 e1 
 Proof. exact repr_div_by_zero. Qed.
 Print Assumptions C03_div_by_zero.
 
+From Dashu Require Import Float.AddModel Float.AddModelProof.
+
+(** as-is model of float/src/add.rs: every alignment / re-alignment branch, for ALL operands that
+    fit the precision, every base, mode, sign and exponent gap, and every sound digit estimate *)
+Theorem C03_add : forall B, 2 <= B -> forall digits_ub, (forall s, dlen B s <= digits_ub s) ->
+  forall p m s1 e1 s2 e2, 1 <= p -> dlen B s1 <= p -> dlen B s2 <= p ->
+  rounded_sum B p m (exact_sum B s1 e1 s2 e2 Positive) (Z.min e1 e2) (ctx_add B digits_ub p m s1 e1 s2 e2).
+Proof. exact ctx_add_correct. Qed.
+Print Assumptions C03_add.
+
+Theorem C03_sub : forall B, 2 <= B -> forall digits_ub, (forall s, dlen B s <= digits_ub s) ->
+  forall p m s1 e1 s2 e2, 1 <= p -> dlen B s1 <= p -> dlen B s2 <= p ->
+  rounded_sum B p m (exact_sum B s1 e1 s2 e2 Negative) (Z.min e1 e2) (ctx_sub B digits_ub p m s1 e1 s2 e2).
+Proof. exact ctx_sub_correct. Qed.
+Print Assumptions C03_sub.
+
+Theorem C03_add_operator_forms : forall B, 2 <= B -> forall digits_ub, (forall s, dlen B s <= digits_ub s) ->
+  forall p1 p2 m s1 e1 s2 e2 sg, let p := ctx_max p1 p2 in 1 <= p -> dlen B s1 <= p -> dlen B s2 <= p ->
+  form_ok B p m s1 e1 s2 e2 sg (add_val_val B digits_ub p1 p2 m s1 e1 s2 e2 sg) /\
+  form_ok B p m s1 e1 s2 e2 sg (add_val_ref B digits_ub p1 p2 m s1 e1 s2 e2 sg) /\
+  form_ok B p m s1 e1 s2 e2 sg (add_ref_val B digits_ub p1 p2 m s1 e1 s2 e2 sg) /\
+  form_ok B p m s1 e1 s2 e2 sg (add_ref_ref B digits_ub p1 p2 m s1 e1 s2 e2 sg).
+Proof. exact fbig_add_forms_correct. Qed.
+Print Assumptions C03_add_operator_forms.
+
+Theorem C03_add_sub_unlimited : forall B, 2 <= B -> forall digits_ub m s1 e1 s2 e2 sg,
+  let res := match sg with Positive => ctx_add B digits_ub 0 m s1 e1 s2 e2
+                         | Negative => ctx_sub B digits_ub 0 m s1 e1 s2 e2 end in
+  exists r e, res = AExact r e /\
+    ((0 <= e - Z.min e1 e2 /\ r * B ^ (e - Z.min e1 e2) = exact_sum B s1 e1 s2 e2 sg) \/
+     (r = 0 /\ exact_sum B s1 e1 s2 e2 sg = 0)).
+Proof. exact ctx_add_sub_unlimited. Qed.
+Print Assumptions C03_add_sub_unlimited.
+
+(** what [rounded_sum] means: the documented contract, clause by clause *)
+Theorem C03_rounded_sum_is_the_contract : forall B, 2 <= B -> forall p m S e0 a, 1 <= p -> rounded_sum B p m S e0 a ->
+  match a with
+  | AExact r e => r = 0 /\ S = 0 \/ 0 <= e - e0 /\ r * B ^ (e - e0) = S
+  | AInexact r e f =>
+      let U := B ^ (e - e0) in
+      0 <= e - e0 /\ r * U <> S /\ Z.abs (r * U - S) < U /\ U * B ^ (p - 1) <= Z.abs S /\
+      (is_half_mode m = true -> 2 * Z.abs (r * U - S) <= U) /\ side_ok m S U r /\
+      (f = AddOne -> S < r * U) /\ (f = SubOne -> r * U < S) /\
+      Z.abs r <= B ^ (p + 1) /\ ~ representable B p S
+  end.
+Proof. exact rounded_sum_contract. Qed.
+Print Assumptions C03_rounded_sum_is_the_contract.
+
+(** the far-apart stand-in is sound because rounding only sees (integer part, sign, half test) *)
+Theorem C03_standin : forall m h c M1 t1 M2 t2,
+  0 < c -> 0 < M1 -> 0 < M2 -> 0 < t1 * t2 -> 2 * Z.abs t1 < M1 -> 2 * Z.abs t2 < M2 ->
+  spec_round m (h * M1 + t1) (c * M1) = spec_round m (h * M2 + t2) (c * M2).
+Proof. exact spec_round_standin. Qed.
+Print Assumptions C03_standin.
+
+Example C03_add_nonvacuous :
+  ctx_add_x 10 3 MHalfEven 123 0 456 (-2) = AInexact 128 0 AddOne /\
+  ctx_add_x 2 10 MHalfAway 1 0 1 (-30) = AInexact 512 (-9) NoOp /\
+  ctx_sub_x 10 3 MDown 100 0 1 (-9) = AInexact 999 (-1) SubOne /\
+  ctx_sub_x 10 3 MHalfEven 100 1 999 (-1) = AExact 9001 (-1) /\
+  ctx_add_x 10 3 MHalfEven 999 0 5 (-1) = AInexact 1000 0 AddOne /\
+  dlen 10 123 <= 3 /\ dlen 10 456 <= 3.
+Proof. vm_compute. repeat split; discriminate. Qed.
+
 Example C03_nonvacuous :
   repr_round 10 3 MHalfEven 12345 0 = AInexact 123 2 NoOp /\
   repr_round 10 3 MHalfEven 12350 0 = AInexact 124 2 AddOne /\
